@@ -1424,6 +1424,13 @@ class SD:
                                 sq = sq.value
                             if isinstance(sq, _ast.Name) and sq.id in len_of:
                                 ivar, R = g.target.elts[0].id, ({len_of[sq.id]: 1}, -cut)
+                        elif g.iter.func.id == "zip" and g.iter.args and isinstance(g.target, _ast.Tuple) and len(g.target.elts) == len(g.iter.args):
+                            # for pos, elem in zip(range(E), seq): pos stays within range(E) (zip ends with its shortest operand)
+                            for t_, a_ in zip(g.target.elts, g.iter.args):
+                                if isinstance(t_, _ast.Name) and isinstance(a_, _ast.Call) and isinstance(a_.func, _ast.Name) and a_.func.id == "range" \
+                                        and len(a_.args) == 1:
+                                    ivar, R = t_.id, lin(a_.args[0], {})
+                                    break
                     if ivar is None:
                         raise AnalysisError(f"{fi.qual}: skip table of an unrecognised shape")
                     V = lin(dc.value, {})
